@@ -3,15 +3,19 @@ mod c10;
 mod data;
 mod envutil;
 mod pool;
+mod queries;
 mod runner;
 mod sim;
 mod source;
+mod sqlcheck;
+mod sqlchecks;
+mod sqlsim;
 
 use dst_common::{Tier, seed_from_env};
 use runner::Check;
 
 fn checks() -> Vec<Check> {
-    vec![c10::check()]
+    vec![c10::check(), sqlchecks::c02(), sqlchecks::c05(), sqlchecks::c06(), sqlchecks::c08(), sqlchecks::c18(), sqlchecks::c19(), sqlchecks::c20()]
 }
 
 fn usage() -> ! {
@@ -73,6 +77,33 @@ fn main() {
             let path = args.get(1).cloned().unwrap_or_else(|| usage());
             let log = args.iter().any(|a| a == "--log");
             std::process::exit(runner::replay(&all, &path, log));
+        }
+        "dumpcase" => {
+            // l1 dumpcase <Cxx> <index>: prints the replay-style JSON of a generated case (debugging aid)
+            let Some(check) = all.iter().find(|c| c.property == args[1]) else { usage() };
+            let idx: u64 = args[2].parse().unwrap();
+            let (scn, case) = check.case_for(seed_from_env(), idx, Tier::Quick);
+            println!("{}", serde_json::json!({"property": check.property, "level": "L1", "scenario": scn.name(), "case": case, "decisions": [], "case_index": idx}));
+        }
+        "selftest" => {
+            // l1 selftest <Cxx> <index>: same case in-process twice, then in a forked child; first differing log line
+            let Some(check) = all.iter().find(|c| c.property == args[1]) else { usage() };
+            let idx: u64 = args[2].parse().unwrap();
+            let (scn, case) = check.case_for(seed_from_env(), idx, Tier::Quick);
+            let a = runner::run_here(scn, &case, vec![], false, true);
+            let b = runner::run_here(scn, &case, vec![], false, true);
+            let c = runner::run_isolated(scn, &case, vec![], false, true).unwrap();
+            for (name, x) in [("second in-process", &b), ("forked", &c)] {
+                let la = a["log"].as_array().unwrap();
+                let lx = x["log"].as_array().unwrap();
+                let pos = la.iter().zip(lx.iter()).position(|(p, q)| p != q);
+                println!("{name}: hash {} vs {}; lens {} {}; first diff at {:?}", a["trace_hash"], x["trace_hash"], la.len(), lx.len(), pos);
+                if let Some(p) = pos {
+                    for i in p.saturating_sub(5)..(p + 5).min(la.len()).min(lx.len()) {
+                        println!("   {i}: {} | {}", la[i], lx[i]);
+                    }
+                }
+            }
         }
         "determinism" => {
             let id = args.get(1).cloned().unwrap_or_else(|| usage());
